@@ -1379,16 +1379,16 @@ Qed.
 Lemma regroup_value_type r : fst (regroup_value r) = fst r.
 Proof.
   unfold regroup_value. destruct r as [t tr]. cbn [fst snd].
-  destruct t as [| | | |[|a l]]; try reflexivity. destruct tr; [reflexivity|].
+  destruct t as [| | | |[|a l]]; try reflexivity.
   now destruct (Nat.eqb _ _).
 Qed.
 
 Lemma regroup_value_sem rho r v : sem rho r v -> sem rho (regroup_value r) v.
 Proof.
   intros H. unfold regroup_value. destruct r as [t tr]. cbn [fst snd].
-  destruct t as [| | | |[|a l]]; try exact H. destruct tr as [e|lv]; [exact H|].
+  destruct t as [| | | |[|a l]]; try exact H.
   unfold sem, den in *. cbn [fst snd] in *.
-  destruct (Nat.eqb_spec (ty_size (TTuple (a :: l))) (length (flat (Nd lv)))) as [Ln|Ln]; cbn [fst snd].
+  destruct (Nat.eqb_spec (ty_size (TTuple (a :: l))) (length (flat tr))) as [Ln|Ln]; cbn [fst snd].
   - now rewrite regroup_flat by congruence.
   - now rewrite flat_of_list.
 Qed.
@@ -1784,7 +1784,6 @@ Proof.
   - destruct W as (l & ->). rewrite flat_of_list in Ln. cbn [snd]. rewrite decompose_of_list. now rewrite Ln.
   - discriminate.
   - rewrite ty_ok_tuple in Ok. apply andb_true_iff in Ok as [_ Ok]. apply Nat.leb_le in Ok.
-    destruct tr as [e|lv]; [change (length (flat (L e))) with 1%nat in Ln; lia|].
     rewrite Ln, Nat.eqb_refl. cbn [snd]. now apply decompose_regroup.
 Qed.
 
